@@ -31,7 +31,8 @@ def cases(tier, seed):
     rng = random.Random(seed * 49979687 + 13)
     cfgs = grid_twolevel(48, 10, 5) if th else grid_twolevel(22, 6, 3)
     cfgs += rand_twolevel(rng, 2000 if th else 60, 5000 if th else 500)
-    return [{"cfg": c, "passes": 3 if th else 2, "observe": None, "rseed": i}
+    return [S.decorate({"cfg": c, "passes": 3 if th else 2, "observe": None,
+                        "rseed": i}, i, seed)
             for i, c in enumerate(cfgs)]
 
 
